@@ -202,7 +202,7 @@ def run_one(entry, root):
     if b.returncode != 0:
         shutil.rmtree(d, ignore_errors=True)
         return name, prop, expect, "stale", "mutant does not compile: " + b.stderr[-300:]
-    r = subprocess.run([os.path.join(VERIF, "bin", "lungovc"), "check", "-prop", prop, "-tier", "quick",
+    r = subprocess.run([os.path.join(root, "lungovc"), "check", "-prop", prop, "-tier", "quick",
                         "-repo", repo, "-verif", verif], env=ENV, capture_output=True, text=True)
     out = r.stdout + r.stderr
     viol = [l for l in out.splitlines() if l.startswith("VIOLATION property=" + prop)]
@@ -239,6 +239,8 @@ def main():
             corpus.append(("seed-" + sid, sid.split("-")[0], "fail", pf))
     todo = [e for e in corpus if (not props or e[1] in props) and (not sub or sub in e[0])]
     root = tempfile.mkdtemp(prefix="lungovc-selftest.", dir="/var/tmp")
+    # a private copy of the checker, so that the engine can be rebuilt while a corpus run is in progress
+    shutil.copy2(os.path.join(VERIF, "bin", "lungovc"), os.path.join(root, "lungovc"))
     bad = 0
     try:
         with cf.ThreadPoolExecutor(max_workers=jobs) as ex:
